@@ -6,6 +6,8 @@ package main
 // (spec/Goalign.tla) is the only judge of the events; nothing is compared here.
 
 import (
+	"github.com/evolbioinfo/goalign/io/partition"
+	"strings"
 	"encoding/json"
 	"fmt"
 	"math"
@@ -621,6 +623,49 @@ func (h *heapRun) apply(st Step, ret map[string]interface{}) error {
 		ret["sites"] = nn(s)
 		return err
 	case "Split":
+		if ab(a, "text") {
+			// the same ranges written as a partition file and read back by the real partition parser
+			var sbuf strings.Builder
+			prev := -999999
+			for _, x := range alist(a, "ranges") {
+				r := x.(map[string]interface{})
+				if ai(r, "p") != prev {
+					if prev != -999999 {
+						sbuf.WriteString("\n")
+					}
+					fmt.Fprintf(&sbuf, "M, p%d = ", ai(r, "p"))
+					prev = ai(r, "p")
+				} else {
+					sbuf.WriteString(", ")
+				}
+				if ai(r, "s") == ai(r, "e") && ai(r, "m") == 1 {
+					fmt.Fprintf(&sbuf, "%d", ai(r, "s")+1)
+				} else {
+					fmt.Fprintf(&sbuf, "%d-%d", ai(r, "s")+1, ai(r, "e")+1)
+				}
+				if ai(r, "m") != 1 {
+					fmt.Fprintf(&sbuf, "/%d", ai(r, "m"))
+				}
+			}
+			sbuf.WriteString("\n")
+			ret["text"] = sbuf.String()
+			ps, err := partition.NewParser(strings.NewReader(sbuf.String())).Parse(ai(a, "plen"))
+			if err != nil {
+				ret["stage"] = "addrange"
+				return err
+			}
+			ret["stage"] = "split"
+			als, err := needAlign(o).Split(ps)
+			if err != nil {
+				return err
+			}
+			ids := []int{}
+			for _, x := range als {
+				ids = append(ids, h.addAlign(x))
+			}
+			ret["new"] = ids
+			return nil
+		}
 		ps := align.NewPartitionSet(ai(a, "plen"))
 		for _, x := range alist(a, "ranges") {
 			r := x.(map[string]interface{})
